@@ -204,4 +204,66 @@ theorem filter_nonempty_of_new (p1 p2 : List (List Int)) (dups : List (Option Na
     | nil => rw [hf] at this; cases this
     | cons _ _ => rfl
 
+/-! ### merged cells per type -/
+
+theorem cellsOf_eq_rowsOfType (m : Mesh) (ct : String) : m.cellsOf ct = rowsOfType m.cells ct := rfl
+
+theorem find_filter_new (c1 c2 : List (String × List (List Nat))) (ct : String)
+    (h : ∀ b ∈ c1, (b.1 == ct) = false) :
+    (c2.filter fun b2 => !(c1.any (·.1 == b2.1))).find? (·.1 == ct) = c2.find? (·.1 == ct) := by
+  induction c2 with
+  | nil => rfl
+  | cons b2 r ih =>
+    by_cases hb : (b2.1 == ct) = true
+    · have hct : b2.1 = ct := by simpa using hb
+      have hnew : (!(c1.any (·.1 == b2.1))) = true := by
+        simp only [Bool.not_eq_true', List.any_eq_false]
+        intro b hbm
+        rw [hct]
+        simpa using h b hbm
+      simp [hnew, hb]
+    · simp only [Bool.not_eq_true] at hb
+      rw [List.find?_cons, hb]
+      simp only [List.filter_cons]
+      split
+      · rw [List.find?_cons, hb]; exact ih
+      · exact ih
+
+theorem find_map_fst {β} (g : String × β → String × β) (hg : ∀ b, (g b).1 = b.1)
+    (l : List (String × β)) (ct : String) :
+    (l.map g).find? (·.1 == ct) = (l.find? (·.1 == ct)).map g := by
+  induction l with
+  | nil => rfl
+  | cons b r ih =>
+    simp only [List.map_cons, List.find?_cons, hg]
+    cases (b.1 == ct) with
+    | true => rfl
+    | false => exact ih
+
+/-- **merged connectivity**: for every cell type the merged mesh lists the earlier mesh's cells
+    followed by the later piece's cells with remapped corners — nothing lost, nothing twice -/
+theorem rowsOfType_mergeCells (c1 c2 : List (String × List (List Nat))) (pmap : List Nat) (ct : String) :
+    rowsOfType (mergeCells c1 c2 pmap) ct = rowsOfType c1 ct ++ remapRows pmap (rowsOfType c2 ct) := by
+  unfold mergeCells
+  rw [rowsOfType, List.find?_append,
+    find_map_fst (fun b : String × List (List Nat) => (b.1, b.2 ++ remapRows pmap (rowsOfType c2 b.1)))
+      (fun _ => rfl),
+    find_map_fst (fun b2 : String × List (List Nat) => (b2.1, remapRows pmap b2.2)) (fun _ => rfl)]
+  cases h1 : c1.find? (·.1 == ct) with
+  | some b1 =>
+    have hb1 : b1.1 = ct := by
+      have := List.find?_some h1
+      simpa using this
+    simp only [Option.map_some, Option.some_or, hb1, rowsOfType, h1]
+  | none =>
+    have hnone : ∀ b ∈ c1, (b.1 == ct) = false := by
+      intro b hb
+      have := List.find?_eq_none.mp h1 b hb
+      simpa using this
+    rw [find_filter_new c1 c2 ct hnone]
+    simp only [Option.map_none, Option.none_or, rowsOfType, h1, List.nil_append]
+    cases c2.find? (·.1 == ct) with
+    | some b2 => rfl
+    | none => rfl
+
 end Fc
